@@ -1,5 +1,5 @@
 CONSTANTS P = 23  A = 1  B = 19  Gx = 2  Gy = 11  N = 19
-          SignZ = {1, 2, 3, 4, 5, 6, 7, 8, 9, 10, 11, 12, 13, 14, 15, 16, 17, 18, 19, 20, 21, 22, 23, 24, 25, 26, 27, 28, 29, 30, 31, 32, 33, 34, 35, 36, 37, 38}  VerZ = {1, 2, 18, 19, 20, 38}  VerQ = {2, 3, 4, 5, 6, 7, 8, 9, 10, 11, 12, 13, 14, 15, 16, 17, 18, 19}  RecZ = {1, 2, 18, 19, 20}
+          SignZ = {1, 2, 3, 4, 5, 6, 7, 8, 9, 10, 11, 12, 13, 14, 15, 16, 17, 18, 19, 20, 21, 22, 23, 24, 25, 26, 27, 28, 29, 30, 31, 32, 33, 34, 35, 36, 37, 38}  VerZ = {1, 2, 18, 19, 20, 38}  VerQ = {2, 3, 5, 7, 9, 11, 13, 15, 17, 19}  RecZ = {1, 2, 18, 19, 20}
 SPECIFICATION Spec
 INVARIANT ReturnedVerifies
 CHECK_DEADLOCK FALSE
